@@ -237,6 +237,22 @@ Proof.
   intros s x e H Hc. unfold has_expr, reset_variable in *. simpl.
   apply (lookup_expr_filter (fun k => negb (containsb (expr_snapshot k) (var_snapshot x)))); auto. rewrite Hc. reflexivity.
 Qed.
+(* an assignment: resets by the assigned variable and, for an element, by the variables that may denote it *)
+Theorem reset_assigned_keeps_atom : forall s x a,
+  has_atom s a ->
+  (forall v, In v (reset_set allvars x) -> containsb (atom_snapshot a) (var_snapshot v) = false) ->
+  has_atom (reset_assigned allvars s x) a.
+Proof.
+  intros s x a H Hv. unfold reset_assigned, reset_variables. revert s H.
+  induction (reset_set allvars x) as [|v vs IH]; intros s H; simpl; [exact H|].
+  apply IH.
+  - intros w Hw. apply Hv. right. exact Hw.
+  - apply reset_variable_keeps_atom; auto. apply Hv. left. reflexivity.
+Qed.
+(* two different literal selectors never alias: a reader of M["b"] is not reset by an assignment to M["a"] on that account *)
+Lemma literals_do_not_alias : forall c s1 s2, lit_sel s1 = true -> lit_sel s2 = true -> may_alias (VSel c s1) (VSel c s2) = false.
+Proof. intros c s1 s2 H1 H2. unfold may_alias. rewrite H1, H2. simpl. rewrite !andb_false_r. reflexivity. Qed.
+
 (* Forget / Changed *)
 Theorem reset_name_keeps_atom : forall s n a,
   has_atom s a ->
